@@ -1,4 +1,5 @@
 import Spake2Verif.Proofs.TranscriptProofs
+import Spake2Verif.Proofs.ProtoShapeTie
 /-!
 # C17 — The transcript hash binds every field and is order-independent when symmetric
 
@@ -231,5 +232,13 @@ example : finalizeSymmetric [1] [5, 6] [5, 7] [9] [2] = finalizeSymmetric [1] [5
 
 /-- non-vacuity: `sorted2` really sorts -/
 example : sorted2 [5, 7] [5, 6] = ([5, 6], [5, 7]) := by decide
+
+/-- Tie A: the two transcript layouts proved above are those of the *source* -- `finalizeSPAKE2` /
+`finalizeSymmetric` are the functions `tools/py2lean.py` translates from `finalize_SPAKE2` /
+`finalize_SPAKE2_symmetric` on every run -/
+theorem transcript_layout_is_the_source :
+    finalizeSPAKE2 = Spake2Model.Gen.Proto.finalize_asym ∧
+    finalizeSymmetric = Spake2Model.Gen.Proto.finalize_sym :=
+  ⟨ProtoShapeTie.finalize_asym_tie, ProtoShapeTie.finalize_sym_tie⟩
 
 end Spake2Verif.C17
